@@ -5,7 +5,7 @@ import ast
 import re
 from typing import Any
 
-from ..astutil import call_name, cfg_of, constructs_error, norm, short, stmt_calls, where
+from ..astutil import Locals, call_name, cfg_of, constructs_error, names_in, norm, receivers, short, stmt_calls, stmt_of, where
 from ..cfg import CFG
 from ..core import Report
 from .siblings import enum_merge_parity
@@ -96,39 +96,53 @@ def run(rep: Report, ctx: Any) -> str:
 
     # ---- R15.2 -----------------------------------------------------------------------------------------------------------
     mca = ix.func("merge_properties._merge_common_attributes")
-    req_kw = [kw for n in ast.walk(mca.node) if isinstance(n, ast.Call) and call_name(n).endswith("evolve") for kw in n.keywords if kw.arg == "required"]
-    rep.require(req_kw, "required= in _merge_common_attributes")
-    for kw in req_kw:
-        ok = isinstance(kw.value, ast.BoolOp) and isinstance(kw.value.op, ast.Or) and {norm(v) for v in kw.value.values} == {"current.required", "override.required"}
+    ev_calls = [n for n in ast.walk(mca.node) if isinstance(n, ast.Call) and call_name(n).endswith("evolve") and any(kw.arg == "required" for kw in n.keywords)]
+    rep.require(ev_calls, "required= in _merge_common_attributes")
+    over = {norm(lp.target) for lp in ast.walk(mca.node) if isinstance(lp, ast.For) and norm(lp.iter) == "extend_with"}
+    for c in ev_calls:
+        kw = next(k for k in c.keywords if k.arg == "required")
+        acc = norm(c.args[0]) if c.args else ""
+        want = {f"{acc}.required"} | {f"{o}.required" for o in over}
+        ok = isinstance(kw.value, ast.BoolOp) and isinstance(kw.value.op, ast.Or) and {norm(v) for v in kw.value.values} == want and len(want) == 2
         rep.check(ok, "R15.2", "_merge_common_attributes::required-disjunction", "merged requiredness is not `current.required or override.required`",
-                  where(mca, kw.value), lhs=norm(kw.value), rhs="current.required or override.required")
+                  where(mca, kw.value), lhs=norm(kw.value), rhs=" or ".join(sorted(want)))
     pp = ix.func("model_property._process_properties")
     cfg = cfg_of(pp, cfgs)
-    loops = [n for n in ast.walk(pp.node) if isinstance(n, ast.For) and "data.allOf" in norm(n.iter)]
-    rep.require(loops, "loop over data.allOf")
-    loop = loops[0]
-    branch = next((s for s in loop.body if isinstance(s, ast.If) and "isinstance(sub_prop, oai.Reference)" in norm(s.test)), None)
-    rep.require(branch is not None and branch.orelse, "Reference / inline branches in the allOf loop")
-    upd = [s for s in cfg.stmts() if stmt_calls(s, "required_set.update")]
+    loop, branch = allof_branch(rep, pp)
+    rep.require(branch.orelse, "inline branch in the allOf loop")
+    member = norm(loop.target)
+    # roles (locals are found by what they hold, never by their spelling):
+    #   required set  = receiver of .update(<member>.required ...) in the inline branch / the set tested by the final partition
+    #   pending props = the sequence iterated by the loop that calls property_from_data
+    upd_calls = receivers(pp.node, "update", lambda a: f"{member}.required" in a)
+    upd = [stmt_of(pp.node, c) for _, c in upd_calls]
+    req_sets = {r for r, _ in upd_calls} | set(Locals(pp.node).bound_from(lambda v: "data.required" in v, "assign"))
     inline_first = branch.orelse[0]
     ok = bool(upd) and cfg.every_path_passes(inline_first, loop, lambda n: n in upd) or (inline_first in upd)
     rep.check(ok, "R15.2", "_process_properties::inline-required-unioned",
               "the `required` list of an inline allOf member is not added to required_set on every path (e.g. members without "
               "`properties`)", where(pp, inline_first), lhs=[norm(u)[:60] for u in upd], rhs="on every path through the inline branch")
-    props_ext = [s for s in cfg.stmts() if stmt_calls(s, "unprocessed_props.extend")]
+    build_loops = [n for n in ast.walk(pp.node) if isinstance(n, ast.For) and any(call_name(c) == "property_from_data" for c in ast.walk(n)
+                                                                                    if isinstance(c, ast.Call))]
+    rep.require(build_loops, "loop that builds the collected properties (property_from_data)")
+    pending = norm(build_loops[0].iter)
+    props_ext = [stmt_of(pp.node, c) for r, c in receivers(pp.node, "extend", lambda a: f"{member}.properties" in a) if r == pending]
     rep.check(bool(props_ext) and (cfg.every_path_passes(inline_first, loop, lambda n: n in props_ext) or inline_first in props_ext),
               "R15.3", "_process_properties::inline-properties-collected", "inline member properties are not collected on every path",
-              where(pp, inline_first))
-    # required_set reaches every property of the composed model: either each insertion consults it, or the final partition
+              where(pp, inline_first), lhs=[norm(x)[:70] for x in props_ext], rhs=f"{pending}.extend({member}.properties...) on every inline path")
+    # the required set reaches every property of the composed model: either each insertion consults it, or the final partition
     # promotes every property named in it (on a copy) before splitting into required / optional
     adds = [n for n in ast.walk(pp.node) if isinstance(n, ast.Call) and call_name(n) == "_add_if_no_conflict"]
     rep.floor("property_insertions", len(adds), 2)
-    part = [n for n in ast.walk(pp.node) if isinstance(n, ast.For) and norm(n.iter) == "properties.values()"]
+
+    def in_req(e: ast.AST) -> bool:
+        return any(isinstance(c_, ast.Compare) and isinstance(c_.ops[0], ast.In) and norm(c_.comparators[0]) in req_sets for c_ in ast.walk(e))
+
     promoted = False
-    for lp in part:
+    for lp in [n for n in ast.walk(pp.node) if isinstance(n, ast.For)]:
         split = next((s for s in lp.body if isinstance(s, ast.If) and norm(s.test) == f"{norm(lp.target)}.required"), None)
         for s in lp.body:
-            if isinstance(s, ast.If) and "in required_set" in norm(s.test) and split is not None and lp.body.index(s) < lp.body.index(split):
+            if isinstance(s, ast.If) and in_req(s.test) and split is not None and lp.body.index(s) < lp.body.index(split):
                 for a in s.body:
                     if isinstance(a, ast.Assign) and norm(a.targets[0]) == norm(lp.target) and "evolve(" in norm(a.value) and \
                             "required=True" in norm(a.value):
@@ -142,7 +156,7 @@ def run(rep: Report, ctx: Any) -> str:
                       "them later: a sibling member's `required: [name]` does not make them mandatory", where(pp, a), lhs=arg,
                       rhs="required depends on required_set (at insertion or in the final partition)")
         else:
-            dep = any(isinstance(s, ast.Assign) and "in required_set" in norm(s.value) for s in ast.walk(pp.node))
+            dep = any(isinstance(s, ast.Assign) and in_req(s.value) for s in ast.walk(pp.node))
             rep.check(dep or promoted, "R15.2", "_process_properties::inline-insert-uses-required_set", "inserted property ignores required_set", where(pp, a))
     # ---- R15.3 ---------------------------------------------------------------------------------------------------------------
     rep.check("data.properties.items()" in norm(pp.node), "R15.3", "_process_properties::own-properties", "the schema's own properties are not collected",
@@ -154,9 +168,31 @@ def run(rep: Report, ctx: Any) -> str:
     # ---- R15.4 -------------------------------------------------------------------------------------------------------------------
     pm = ix.func("properties._process_models")
     t3 = norm(pm.node)
-    rep.check("next_round.append(model_prop)" in t3 and "latest_model_errors.append" in t3, "R15.4", "_process_models::requeue",
-              "a model whose parent is not processed yet is not re-queued", where(pm, pm.node))
-    rep.check("final_model_errors.append" in t3 and "Recursive allOf reference found" in t3, "R15.4", "_process_models::self-reference-final",
+    # roles: the work list is what the loop calling process_model iterates; the next round is what is assigned to it at the end of a
+    # pass; a recorded error is a (model, error) tuple appended to a list that reaches _process_model_errors
+    ploops = [n for n in ast.walk(pm.node) if isinstance(n, ast.For) and any(call_name(c) == "process_model" for c in ast.walk(n) if isinstance(c, ast.Call))]
+    rep.require(ploops, "loop calling process_model")
+    pl = ploops[0]
+    model, work = norm(pl.target), norm(pl.iter)
+    nxt = {norm(a.value) for a in ast.walk(pm.node) if isinstance(a, ast.Assign) and norm(a.targets[0]) == work and isinstance(a.value, ast.Name)}
+    requeues = [c for r, c in receivers(pl, "append", lambda a: a == model) if r in nxt]
+    recorded = {r for r, _ in receivers(pl, "append", lambda a: a.startswith(f"({model},"))}
+    sink = [c for c in ast.walk(pm.node) if isinstance(c, ast.Call) and call_name(c) == "_process_model_errors"]
+    sink_args = {norm(a) for c in sink for a in c.args}
+    feeds = sink_args | {norm(c.args[0]) for r, c in receivers(pm.node, "extend") if r in sink_args and c.args}
+    rep.check(bool(requeues) and bool(recorded) and recorded <= feeds, "R15.4", "_process_models::requeue",
+              "a model whose parent is not processed yet is not re-queued (or its error of the last round is not reported)", where(pm, pl),
+              lhs={"requeue": [norm(c) for c in requeues], "recorded_in": sorted(recorded), "reported": sorted(feeds)},
+              rhs="<next round>.append(<model>) and (<model>, <error>) recorded in a list that reaches _process_model_errors")
+    rec_blocks = [s for s in ast.walk(pl) if isinstance(s, ast.If) and "Recursive allOf reference found" in norm(s)]
+    final_ok = False
+    for b in rec_blocks:
+        inner = [x for x in b.body if "Recursive allOf reference found" in norm(x)]
+        if inner and not isinstance(inner[0], ast.If):
+            rec = {r for st in b.body for r, _ in receivers(st, "append", lambda a: a.startswith(f"({model},"))}
+            final_ok = final_ok or (bool(rec) and rec <= sink_args and not any(r in nxt for st in b.body for r, _ in receivers(st, "append"))
+                                    and isinstance(b.body[-1], ast.Continue))
+    rep.check(final_ok, "R15.4", "_process_models::self-reference-final",
               "a self-referential allOf is not diverted to the final errors", where(pm, pm.node))
     ends = [n for n in ast.walk(pm.node) if isinstance(n, ast.Call) and isinstance(n.func, ast.Attribute) and n.func.attr == "endswith"]
     for n in ends:
@@ -175,9 +211,7 @@ def check_no_parent_mutation(rep: Report, ctx: Any, rid: str) -> None:
     """property objects inherited from a referenced parent are shared: never mutated while composing a child (C15 / C02)"""
     ix = ctx.py
     pp = ix.func("model_property._process_properties")
-    branch = next((s_ for lp in ast.walk(pp.node) if isinstance(lp, ast.For) and "data.allOf" in norm(lp.iter) for s_ in lp.body
-                   if isinstance(s_, ast.If) and "isinstance(sub_prop, oai.Reference)" in norm(s_.test)), None)
-    rep.require(branch is not None, "allOf reference branch")
+    _, branch = allof_branch(rep, pp)
     muts = []
     loop_vars = {norm(n.target) for n in ast.walk(pp.node) if isinstance(n, ast.For)}
     for n in ast.walk(pp.node):
@@ -193,6 +227,17 @@ def check_no_parent_mutation(rep: Report, ctx: Any, rid: str) -> None:
               f"a property object shared with the referenced parent model is mutated while composing the child ({[norm(m)[:60] for m in muts]}): "
               "the change leaks into the parent class", where(pp, muts[0]) if muts else where(pp, branch),
               lhs=[norm(m)[:60] for m in muts], rhs="no mutation of inherited property objects")
+
+
+def allof_branch(rep: Report, pp: Any) -> tuple[ast.For, ast.If]:
+    """the loop over data.allOf and its `isinstance(<member>, oai.Reference)` statement (the member variable may have any name)"""
+    loops = [n for n in ast.walk(pp.node) if isinstance(n, ast.For) and "data.allOf" in norm(n.iter)]
+    rep.require(loops, "loop over data.allOf")
+    loop = loops[0]
+    member = norm(loop.target)
+    branch = next((s for s in loop.body if isinstance(s, ast.If) and f"isinstance({member}, oai.Reference)" in norm(s.test)), None)
+    rep.require(branch is not None, "allOf reference branch")
+    return loop, branch
 
 
 def _more_specific(t1: str, t2: str) -> bool:
